@@ -153,6 +153,19 @@ def r06_3(ctx):
     ctx.ob('R06.3', 'TimeoutHandler.on_soft_timeout:not-for-a-finished-job', ok, fi, acts[0],
            'signal and callback are under `not job.ready()` (the scan works on a copy of the cache; its sibling '
            'on_hard_timeout has the same guard)')
+    # "already resolved" must become visible before user code runs: a processed result whose
+    # completion callback is still running must not look pending to the scanner
+    st = m.func('pool:ApplyResult._set')
+    ev = [n for (n, c) in q.calls(st, 'self._event.set')]
+    cbs = [n for (n, c) in q.calls(st, None)
+           if st.callee(c) in ('self._callback', 'self._error_callback') or
+           (st.callee(c) == 'self.safe_apply_callback' and c.args and
+            st.canon(c.args[0]) in ('self._callback', 'self._error_callback'))]
+    q.need(ev and cbs, 'ApplyResult._set: event / callbacks not found')
+    ok = all(st.cfg.dominated_by(cb, ev, completed=True)[0] for cb in cbs)
+    ctx.ob('R06.3', 'ApplyResult._set:ready-before-callbacks', ok, st, cbs[0],
+           'self._event.set() precedes the completion callbacks ("apply callbacks last"): while a slow callback '
+           'runs the job already reads as ready, so no time-limit action is taken on its behalf')
     # and only for a job that is owned by a live worker of this pool
     kills = [n for (n, c) in q.calls(fi, ('_kill', 'os.kill'))]
     ok = all(any(p and t == 'self._process_by_pid(%s._worker_pid)' % job or
